@@ -88,6 +88,14 @@ def run(ctx):
                                     "\u1c90\u10d1\u10d212", "\u01c4abc", "\u01c7ubav9", "\u1c90\u1c91\u10d2", "\u01f1eta"], 5)
             for x in extra:
                 passwords += [x] * ctx.rng.choice([1, 2, 5])
+        if enc == "utf-8" and i % 3 == 2:
+            # legal characters that are neither controls nor line breaks: non-ASCII spaces, format characters, private use
+            extra = ctx.rng.sample(["pass\u00a0word1", "love\u00ad2019", "a\u200db7", "\u3000x1", "\ue000abc", "tom\u2009cat", "x\u2060y\ufeffz"], 4)
+            for x in extra:
+                passwords += [x] * ctx.rng.choice([1, 2])
+            dist["lists_with_unusual_blanks_or_format_chars"] = dist.get("lists_with_unusual_blanks_or_format_chars", 0) + 1
+        if enc == "latin-1" and i % 2 == 0:
+            passwords += ["caf\u00e9\u00a0noir", "na\u00efve\u00ad1"]
         if i % 4 == 1:
             # a history inside ONE training run: base words seen often enough to split multi-words, a three-word
             # password, and afterwards passwords that are (or end in) its two-word tail
@@ -205,7 +213,7 @@ def run(ctx):
             corr.append(("mask-roundtrip:" + name, True, ""))
     rule = ("generated training lists (words, capitalised words, multi-words, digits, years, symbols, keyboard walks, context strings, "
             "spaces, Latin-1 / Cyrillic / Cherokee / Georgian letters and digraphs with a separate title case, three-word passwords followed by "
-            "their two-word tails, e-mails, websites, duplicates) in utf-8 / latin-1 / cp1251, coverage 0.3 / 0.6 / 1, n-gram 2-4; "
+            "their two-word tails, non-ASCII spaces / format / private-use characters, e-mails, websites, duplicates) in utf-8 / latin-1 / cp1251, coverage 0.3 / 0.6 / 1, n-gram 2-4; "
             "real trainer.py subprocess, real guesser with skip_brute run to exhaustion, whole language enumerated; every supported training "
             "password must be in it and the probabilities must sum to 1 (1e-9); non-trivial = password with >= 2 segments, capitals or "
             "non-ASCII; distinct by (password, encoding)")
